@@ -3,7 +3,7 @@
 //! payload (symbolic recipe; the server's challenge is random, so concrete frames are
 //! materialised while the real `serverside` runs):
 //!   `adv <hdr> <frame> <access> <wfail> <srvsecret>`
-//!      hdr    = none | honest:<key>:<clisecret> | sigbad:<key>:<clisecret> | otherkey:<key>:<clisecret>
+//!      hdr    = none | honest:<key>:<clisecret> | sigbad:<key>:<clisecret> | lifted:<key>:<clisecret> | otherkey:<key>:<clisecret>
 //!               | badpoint | trail:<key>:<clisecret> | trunc:<key>:<clisecret>:<n> | raw:<hex bytes of header value>
 //!      frame  = eof | ioerr | raw:<hex> | auth:<key>:<sigkind>:<mutation>
 //!               sigkind  = good | otherkey | stale | rawchal | garbage
@@ -256,6 +256,14 @@ fn build_header(spec: &str) -> Option<Vec<u8>> {
             let raw = match kind {
                 "honest" => km_header_bytes(pk.as_bytes(), &good_sig, &km[16..], &[]),
                 "sigbad" => km_header_bytes(pk.as_bytes(), &[0x33; 64], &km[16..], &[]),
+                // a challenge-path answer (signature over derive_key(challenge)) obtained from the
+                // honest key holder for challenge = km[..16], lifted into a key-material header:
+                // the two proofs must stay domain-separated
+                "lifted" => {
+                    let mut c = [0u8; 16];
+                    c.copy_from_slice(&km[..16]);
+                    km_header_bytes(pk.as_bytes(), &sk.sign(&hk::message_to_sign(c)).to_bytes(), &km[16..], &[])
+                }
                 "otherkey" => {
                     // claims key+1's identity, signed with key's secret over the material bound to key+1
                     let victim = secret(key(1) + 1).public();
@@ -633,7 +641,7 @@ impl Prop for C03 {
         }
         let sigkinds = ["good", "good", "otherkey", "stale", "rawchal", "garbage"];
         let mutations = ["none", "none", "none", "trail", "longtag", "longleb", "badpoint", "tag0", "tag2", "tag3", "tag4", "tag13", "tag14", "tag63", "tag64", "tag16384", "tag4294967296", "trunc0", "trunc1", "trunc33", "trunc34", "trunc97", "trunc98"];
-        let hdrkinds = ["none", "none", "none", "honest", "honest", "sigbad", "otherkey", "badpoint", "trail", "trunc", "raw"];
+        let hdrkinds = ["none", "none", "none", "honest", "honest", "sigbad", "lifted", "otherkey", "badpoint", "trail", "trunc", "raw"];
         let target = if tier == Tier::Thorough { n } else { n };
         while out.len() < target {
             let key = rng.below(4);
